@@ -60,7 +60,9 @@ let item_of_sx s =
 (* the twin of the recording items: the extracted rec_sem, wrapped for the behaviours added with the attribute streams
    (undeclared extra keys, a nil result map, an error at the replay of a merge commit).  The interpreter [run] is the
    extracted one; the theorems of C14 hold for every item behaviour *)
-let sem2 items inj (xk, xi, xidx) extras : (rst, n) sem =
+let spec_base = 3000000000
+
+let sem2 items inj (xk, xi, xidx) extras (specials : (int * int * int * int) list) : (rst, n) sem =
   let base = rec_sem items inj in
   let consume j s d =
     let (s', r) = base.s_consume j s d in
@@ -69,6 +71,16 @@ let sem2 items inj (xk, xi, xidx) extras : (rst, n) sem =
     | COk outs ->
         let jj = int_of_nat j in
         let idx = (match dlookup k_index d with Some (VIndex i) -> int_of_n i | _ -> 0) in
+        (* special values: item position p publishes code for its declared entity e at commit index k (-1: always);
+           the value is written spec_base + code (code 9 = uint64 0 is the ordinary value 0) *)
+        let prov = (try List.map int_of_n (List.nth items jj).i_provides with _ -> []) in
+        let outs = List.map (fun (e, v) ->
+            let ei = int_of_n e in
+            if not (List.mem ei prov) then (e, v) else
+            match List.find_opt (fun (p, e', k, _) -> p = jj && e' = ei && (k < 0 || k = idx)) specials with
+            | Some (_, _, _, code) -> (e, ni (if code = 9 then 0 else spec_base + code))
+            | None -> (e, v)) outs in
+        let r = COk outs in
         let mg = (match dlookup k_merge d with Some (VMerge true) -> true | _ -> false) in
         if xk = "errm" && jj = xi && mg && idx >= xidx then (s', CErr (ni 1))
         else if xk = "nil" && jj = xi && idx = xidx then (s', COk [])
@@ -93,9 +105,10 @@ let sem2 items inj (xk, xi, xidx) extras : (rst, n) sem =
 let index_of x l =
   let rec go i = function [] -> -1 | y :: r -> if x = y then i else go (i + 1) r in go 0 l
 
-let () =
-  iter_cases (fun id c ->
-    let obs = field "obs" c in
+(* one run: [obs] holds order / times / plan / log / res of that run, [inj_args] its injection, [ncommits] the number of
+   commits handed to Run, [sel] (re-use cases) their ids, [where] a prefix for the messages *)
+let judge id c obs inj_args ncommits (sel : int list option) where =
+    let propfail id t = propfail id (where ^ t) and mismatch id t = mismatch id (where ^ t) in
     if field_opt "initfail" obs <> None then count "initfail" else begin
     let declared = List.map item_of_sx (args (field "items" c)) in
     let order = List.map int_of_sx (args (field "order" obs)) in
@@ -114,7 +127,6 @@ let () =
     List.iter (fun s -> match list_of_sx s with
         | cid :: tm :: _ -> Hashtbl.replace times (int_of_sx cid) (int_of_sx tm)
         | _ -> failwith "commit") (args (field "times" obs));
-    let ncommits = List.length (args (field "commits" c)) in
     let commit_of cid = { c_id = ni cid; c_time = z_of_int (try Hashtbl.find times cid with Not_found -> 0) } in
     let plan = List.map (fun s -> match list_of_sx s with
         | [A k; cid; its] ->
@@ -128,7 +140,13 @@ let () =
              | _ -> failwith "plan action kind")
         | _ -> failwith "plan action") (args (field "plan" obs)) in
     let pos_of nm = index_of nm order in
-    let inj = match args (field "inject" c) with
+    let specials = (match field_opt "special" c with
+      | None -> []
+      | Some f -> List.filter_map (fun x -> match ints_of_sx x with
+          | [it; e; k; code] -> let p = pos_of it in if p < 0 then None else Some (p, e, k, code)
+          | _ -> failwith "special") (args f)) in
+    if specials <> [] then count "runs_with_special_values";
+    let inj = match inj_args with
       | [A k; it; kk; e] ->
           let p = pos_of (int_of_sx it) in
           if p < 0 then INone else
@@ -139,13 +157,30 @@ let () =
            | "boot" -> IBoot (nn p, ni (int_of_sx kk))
            | _ -> INone)
       | _ -> failwith "inject" in
-    let inj2 = match args (field "inject" c) with
+    let inj2 = match inj_args with
       | [A k; it; kk; _] -> (k, pos_of (int_of_sx it), int_of_sx kk)
       | _ -> failwith "inject" in
     if field_opt "printbad" obs <> None then
       mismatch id ("PrintActions: what Run printed is not the executed prefix of the dumped plan " ^ string_of_sx (field "printbad" obs));
     let glog = args (field "log" obs) in
     let res = field "res" obs in
+    if field_opt "noplan" obs <> None then begin
+      (* a run without DumpPlan and without any injected failure: the plan is what PrintActions printed, which is
+         complete only when Run came to its end *)
+      count "runs";
+      propfail id ("Run did not complete although no item failed and no declared output was missing (no injection in this run): " ^ string_of_sx res)
+    end else begin
+    (* re-use: the executed plan may only schedule commits that were handed to this run *)
+    (match sel with
+     | None -> ()
+     | Some ids ->
+         let foreign = List.sort_uniq compare (List.filter_map (function
+           | ACommit (cm, _) -> let x = int_of_n cm.c_id in if List.mem x ids then None else Some x
+           | _ -> None) plan) in
+         if foreign <> [] then
+           propfail id (Printf.sprintf "the plan Run executed schedules commit steps for the commit(s) %s, which are not among the commits handed to this run (plan: %s)"
+                          (String.concat " " (List.map string_of_int foreign))
+                          (let p = string_of_sx (field "plan" obs) in if String.length p > 400 then String.sub p 0 400 ^ "..." else p)));
 
     (* ---- hypotheses of the theorems, evaluated on the real plan ---- *)
     count "plans";
@@ -166,7 +201,7 @@ let () =
        still run when one of them fails, to name the first deviating call *)
     let model_limit = (try int_of_string (Sys.getenv "C14_MODEL_LIMIT") with _ -> 450) in
     let with_model = List.length plan <= model_limit in
-    let lout = lazy (run (sem2 items inj inj2 extras) items plan (ni ncommits)) in
+    let lout = lazy (run (sem2 items inj inj2 extras specials) items plan (ni ncommits)) in
     if not with_model then count "large_runs_judged_by_the_oracles_only";
     if with_model then begin
     let out = Lazy.force lout in
@@ -252,6 +287,12 @@ let () =
     let hb_failed = List.exists (fun e -> (tag e = "hib" || tag e = "boot") &&
         (match args e with [_; _; A "0"] -> true | _ -> false)) glog in
     let early = is_err && incomplete = [] && hb_failed in
+    (* "an item error or a missing declared output aborts the run": nothing else does (but a failing Hibernate / Boot) *)
+    if is_err && incomplete = [] && not hb_failed then
+      propfail id ("Run aborted although no Consume call failed and every declared output was returned (a value such as nil, \"\", 0 or false is an output): " ^ string_of_sx res);
+    List.iter (fun (c : n call) -> match c.k_out with
+      | COk upd -> if List.exists (fun (_, v) -> let x = int_of_n v in x = 0 || (x > spec_base && x < spec_base + 100)) upd then count "consume_calls_publishing_a_special_value"
+      | _ -> ()) calls;
     if tag res = "res" && args res <> [A "panic"] then begin
       if not (log_ok N.eqb early plan items plan N0 calls) then begin
         (* name the first deviating call with the help of the model's log when that one passes *)
@@ -275,4 +316,37 @@ let () =
            propfail id ("summary is not (time of the first planned commit, newest committer time, number of input commits): " ^ string_of_sx res)
          else count "summary_ok"
      | _ -> ())
-    end)
+    end
+    end
+
+let () =
+  iter_cases (fun id c ->
+    let obs = field "obs" c in
+    match field_opt "runs" c with
+    | None -> judge id c obs (args (field "inject" c)) (List.length (args (field "commits" c))) None ""
+    | Some runs when field_opt "initfail" obs <> None && args runs = [] -> count "initfail"
+    | Some runs ->
+        (* one Pipeline object, the same item instances, several runs: each judged like the single run of a fresh pipeline *)
+        count "reuse_cases";
+        let robs = List.filter (fun x -> tag x = "run") (args obs) in
+        if List.length robs <> List.length (args runs) then failwith "reuse: runs and observations differ in length";
+        let prev = ref [] in
+        List.iteri (fun k (r, o) ->
+          match args r with
+          | [mode; _; _; dump; inj; sel] ->
+              let ids = List.map int_of_sx (args sel) in
+              count "reuse_runs";
+              if k > 0 then begin
+                count ("reuse_runs_mode_" ^ atom mode);
+                if atom dump = "0" then count "reuse_runs_plan_from_print_actions";
+                let p = !prev in
+                if p <> ids && p <> [] && List.length p = List.length ids && List.hd p = List.hd ids
+                   && List.nth p (List.length p - 1) = List.nth ids (List.length ids - 1) then
+                  count "reuse_runs_same_length_and_ends_other_middle"
+              end;
+              prev := ids;
+              judge id c o (args inj) (List.length ids) (Some ids)
+                (Printf.sprintf "run #%d of one Pipeline object (mode %s) over the commits [%s]: " k (atom mode)
+                   (String.concat " " (List.map string_of_int ids)))
+          | _ -> failwith "run")
+          (List.combine (args runs) robs))
